@@ -1,0 +1,22 @@
+//go:build verif
+
+package webrtc
+
+import (
+	"github.com/aperturerobotics/bifrost/crypto"
+	"github.com/aperturerobotics/bifrost/peer"
+	"github.com/sirupsen/logrus"
+)
+
+// VerifIsOfferer exposes the offerer role rule.
+func VerifIsOfferer(a, b string) bool { return isOfferer(a, b) }
+
+// VerifSessionTrackerFacts constructs the session tracker that a transport with
+// the given local peer ID creates for remotePeerIDStr (without running it) and
+// returns its key, its role, the peer ID its Quic link is constrained to and
+// the public key its signals are encrypted to.
+func VerifSessionTrackerFacts(le *logrus.Entry, localPeerID peer.ID, remotePeerIDStr string) (key string, offerer bool, linkPeerID peer.ID, signalPub crypto.PubKey) {
+	w := &WebRTC{le: le, peerID: localPeerID}
+	_, s := w.newSessionTracker(remotePeerIDStr)
+	return s.key, s.offerer, s.peerID, s.peerPub
+}
